@@ -5,7 +5,8 @@ CONSTANTS
   Vals <- V1
   CheckKeys <- CA
   MaxOps = 5
+  Ops <- OpsAll
   KeepHist = FALSE
 VIEW view
-INVARIANTS TypeOK Canonical GetMatchesContent CommitReloadPreserves ProofComplete AbsenceProvable EmptyTrieHasNoProof ProofSound CorruptedProofRejectedOrSameValue StackTrieEqualsTrie
+INVARIANTS TypeOK Canonical GetMatchesContent OtherCanonical CommitReloadPreserves ProofComplete AbsenceProvable EmptyTrieHasNoProof ProofSound CorruptedProofRejectedOrSameValue StackTrieEqualsTrie
 CHECK_DEADLOCK FALSE
